@@ -15,3 +15,12 @@ int fputc(int c, FILE *fp) { (void)fp; return c; }
 int putchar(int c) { return c; }
 #endif
 #endif
+#if defined(VERIF_CBMC) && !defined(VERIF_KEEP_STDIO) && !defined(VERIF_STUBS_FORMAT)
+#define VERIF_STUBS_FORMAT
+/* src/debug.c formatting helpers: diagnostics only */
+int format_print(FILE *fp, int format, int indent, const char *str, ...) { (void)fp; (void)format; (void)indent; (void)str; return 1; }
+int format_bytes(FILE *fp, int format, int indent, const char *str, const uint8_t *data, size_t datalen)
+{ (void)fp; (void)format; (void)indent; (void)str; (void)data; (void)datalen; return 1; }
+int format_string(FILE *fp, int format, int indent, const char *str, const uint8_t *data, size_t datalen)
+{ (void)fp; (void)format; (void)indent; (void)str; (void)data; (void)datalen; return 1; }
+#endif
